@@ -270,6 +270,18 @@ func (fx *FX) applyContract(fr *frame, st *State, c *Contract, name string, call
 			fx.oblige(st, "pre", fmt.Sprintf("call(%s).requires#%d%s", name, j+1, lbl(cl)), cl.Text, g, pos, propsOr(cl.Props, c.Props))
 			st.reach = fx.define("r_pre", And(st.reach, g))
 		}
+		// recursion: the variant of the function under verification decreases at a call to itself
+		if c == fx.c && callee != nil && callee == fx.fn && len(c.Decreases) > 0 && fx.topFrame != nil && fx.oldState != nil {
+			envOld := fx.newEnv(fx.topFrame, fx.oldState)
+			envOld.names = fx.contractNames(c, callee, sig, fx.topFrame.params, nil, nil)
+			envOld.onlyNames = true
+			for j, cl := range c.Decreases {
+				nv := fx.evalExpr(env, cl.Expr).T
+				ov := fx.evalExpr(envOld, cl.Expr).T
+				nv.Signed, ov.Signed = true, true
+				fx.oblige(st, "variant", fmt.Sprintf("call(%s).variant#%d", name, j+1), "decreases "+cl.Text, And(Lt(nv, ov), Ge(ov, fx.zeroLike(ov))), pos, propsOr(cl.Props, c.Props))
+			}
+		}
 	}
 	// panic exit: a callee that may panic (it runs user callbacks) unwinds through this function;
 	// the pending defers run and the ensures-on-panic clauses must hold
